@@ -91,7 +91,7 @@ impl Property for C27Prop {
         "C27"
     }
     fn rule(&self) -> &'static str {
-        "random single instructions of every body kind (MOVE, ADD/SUB/MUL/DIV, AND/IOR/XOR/SHL/SHR/ASHR, NEG/NOT, EXCHANGE, CONVERT, EQ/GT/GE/LT/LE, LOAD, STORE, JUMP-WHEN/UNLESS, MEASURE with/without target, PULSE, CAPTURE, RAW-CAPTURE, DELAY, SET-*/SHIFT-*, gate with parameters, FENCE, RESET, SWAP-PHASES, NOP/WAIT/HALT/JUMP/LABEL/PRAGMA, CALL) over regions {a,b,c} with every operand form and expressions of depth <= 3; CALLs against generated signatures (optional return, 0..3 scalar/fixed/variable-vector parameters, mutable or not). Non-trivial = the instruction touches >= 2 distinct regions or has an address nested inside an operator/function; distinct by rendered text."
+        "random single instructions of every body kind (MOVE, ADD/SUB/MUL/DIV, AND/IOR/XOR/SHL/SHR/ASHR, NEG/NOT, EXCHANGE, CONVERT, EQ/GT/GE/LT/LE, LOAD, STORE, JUMP-WHEN/UNLESS, MEASURE with/without target, PULSE, CAPTURE, RAW-CAPTURE, DELAY, SET-*/SHIFT-*, gate with parameters, FENCE, RESET, SWAP-PHASES, NOP/WAIT/HALT/JUMP/LABEL/PRAGMA, CALL) over regions {a,b,c} with every operand form and expressions of depth <= 3; CALLs against generated signatures (optional return, 0..3 scalar/fixed/variable-vector parameters, mutable or not); one case in eight is a definition: DEFCAL (optionally with a memory-referencing parameter), DEFCAL MEASURE or DEFCIRCUIT with a body of 1..4 such instructions, DEFGATE as matrix or sequence and DEFWAVEFORM with memory-referencing entries (reference: a definition accesses what its body and its own expressions access). Non-trivial = the instruction touches >= 2 distinct regions or has an address nested inside an operator/function; distinct by rendered text."
     }
     fn max_words(&self) -> usize {
         300
@@ -101,12 +101,16 @@ impl Property for C27Prop {
     }
     fn run(&self, src: &mut Src, ctx: &Ctx, out: &mut Outcome) -> Check {
         let f = rf::frame(&[0], "f");
-        let kind = src.below(28);
+        let kind = src.below(32);
         let mut sig_map = ExternSignatureMap::default();
         let mut shape: Option<CallShape> = None;
         let mut expect_error = false;
         let mut lenient = false;
         let instruction = match kind {
+            28..=31 => {
+                out.class("definition");
+                definition(src, kind)
+            }
             0..=9 => classical::classical(src, kind, &REGIONS),
             10 => Instruction::JumpWhen(JumpWhen { target: Target::Fixed("t".into()), condition: classical::mref(src, &REGIONS, 2) }),
             11 => Instruction::JumpUnless(JumpUnless { target: Target::Fixed("t".into()), condition: classical::mref(src, &REGIONS, 2) }),
@@ -201,8 +205,76 @@ impl Property for C27Prop {
     }
 }
 
+/// An instruction of a kind that may stand in a definition body (no CALL: it needs a signature map
+/// of its own shape).
+fn plain(src: &mut Src) -> Instruction {
+    let f = rf::frame(&[0], "f");
+    let kind = src.below(24);
+    match kind {
+        0..=9 => classical::classical(src, kind, &REGIONS),
+        10 | 11 | 12 => Instruction::Measurement(Measurement {
+            name: None,
+            qubit: Qubit::Fixed(0),
+            target: if src.chance(3, 4) { Some(classical::mref(src, &REGIONS, 2)) } else { None },
+        }),
+        13 => rf::pulse(src.chance(1, 2), &f, rf::waveform("w", &[("x", expr(src, 2))])),
+        14 => rf::capture(src.chance(1, 2), &f, rf::waveform("w", &[("x", expr(src, 2))]), classical::mref(src, &REGIONS, 2)),
+        15 => rf::raw_capture(src.chance(1, 2), &f, expr(src, 2), classical::mref(src, &REGIONS, 2)),
+        16 => rf::delay(&[0], &[], expr(src, 2)),
+        17 => rf::set_phase(&f, expr(src, 2)),
+        18 => rf::shift_frequency(&f, expr(src, 2)),
+        19 => Instruction::Gate(Gate::new("RX", vec![expr(src, 2)], vec![Qubit::Fixed(0)], vec![]).unwrap()),
+        20 => rf::fence(&[0]),
+        21 => Instruction::Nop(),
+        22 => rf::swap_phases(&f, &rf::frame(&[1], "g")),
+        _ => rf::fence(&[]),
+    }
+}
+
+/// A definition whose accesses are those of its body and of its own expressions.
+fn definition(src: &mut Src, kind: usize) -> Instruction {
+    use quil_rs::instruction::{
+        CalibrationDefinition, CalibrationIdentifier, CircuitDefinition, GateDefinition, GateSpecification, MeasureCalibrationDefinition,
+        MeasureCalibrationIdentifier, Waveform, WaveformDefinition,
+    };
+    let n = 1 + src.below(4);
+    let with_body = |src: &mut Src| -> Vec<Instruction> { (0..n).map(|_| plain(src)).collect() };
+    match kind {
+        28 => {
+            let parameters = if src.chance(1, 2) { vec![expr(src, 2)] } else { vec![] };
+            Instruction::CalibrationDefinition(CalibrationDefinition {
+                identifier: CalibrationIdentifier::new("RX".into(), vec![], parameters, vec![Qubit::Fixed(0)]).unwrap(),
+                instructions: with_body(src),
+            })
+        }
+        29 => Instruction::MeasureCalibrationDefinition(MeasureCalibrationDefinition {
+            identifier: MeasureCalibrationIdentifier::new(None, Qubit::Fixed(0), Some("addr".into())),
+            instructions: with_body(src),
+        }),
+        30 => Instruction::CircuitDefinition(CircuitDefinition::new("C".into(), vec![], vec!["q".into()], with_body(src))),
+        _ => match src.below(3) {
+            0 => Instruction::WaveformDefinition(WaveformDefinition::new("wf".into(), Waveform::new((0..n).map(|_| expr(src, 2)).collect(), vec![]))),
+            1 => {
+                let cell = |src: &mut Src| expr(src, 2);
+                let m = vec![vec![cell(src), cell(src)], vec![cell(src), cell(src)]];
+                Instruction::GateDefinition(GateDefinition::new("GM".into(), vec![], GateSpecification::Matrix(m)).unwrap())
+            }
+            _ => {
+                let gates: Vec<Gate> = (0..n).map(|_| Gate::new("RX", vec![expr(src, 2)], vec![Qubit::Variable("p".into())], vec![]).unwrap()).collect();
+                let seq = quil_rs::instruction::DefGateSequence::try_new(vec!["p".into()], gates).unwrap();
+                Instruction::GateDefinition(GateDefinition::new("SQ".into(), vec![], GateSpecification::Sequence(seq)).unwrap())
+            }
+        },
+    }
+}
+
 fn kind_name(i: &Instruction) -> &'static str {
     match i {
+        Instruction::CalibrationDefinition(_) => "DEFCAL",
+        Instruction::MeasureCalibrationDefinition(_) => "DEFCAL-MEASURE",
+        Instruction::CircuitDefinition(_) => "DEFCIRCUIT",
+        Instruction::WaveformDefinition(_) => "DEFWAVEFORM",
+        Instruction::GateDefinition(_) => "DEFGATE",
         Instruction::Move(_) => "MOVE",
         Instruction::Arithmetic(_) => "arithmetic",
         Instruction::BinaryLogic(_) => "binary-logic",
